@@ -863,6 +863,13 @@ regp_recv(RegP *p, RPMaybeFrame *mf)
         return -EINVAL;
     }
 
+    if (cs.buffer.data == NULL) {
+        /* An empty frame: nothing was received, so nothing was allocated and
+         * there is nothing to parse. That is shorter than any header. */
+        mf->error.id = EBADMSG;
+        return regp_resp_meta(p, RP_META_EHEADERENC);
+    }
+
     int rc = parse_frame(&cs.buffer);
 
     if (rc < 0) {
